@@ -82,6 +82,25 @@ def stamp (kind : Kind) (s : K) : Cpt K → Stamp K
                 (br m1, br m1, r), (br m2, br m2, -r)] }
   | .TR n1 n2 m a => { lhs := [(node n2, br m, 1), (br m, node n2, 1), (br m, node n1, -a)] }
   | .Open _ _ => {}
+  | .TPA n1 n2 n3 n4 m a11 a12 a21 a22 =>
+      -- TPA._stamp with its (n4, n3, n2, n1) = our (n1, n2, n3, n4)
+      { lhs := [(node n4, node n2, a21), (node n4, node n1, -a21), (node n4, br m, a22),
+                (node n3, node n2, -a21), (node n3, node n1, a21), (node n3, br m, -a22),
+                (node n2, br m, -1), (node n1, br m, 1),
+                (br m, node n4, -1), (br m, node n3, 1), (br m, node n2, a11), (br m, node n1, -a11),
+                (br m, br m, a12)] }
+  | .TPY n1 n2 n3 n4 y11 y12 y21 y22 =>
+      -- TPY._stamp with its (n3, n4, n1, n2) = our (n1, n2, n3, n4)
+      { lhs := [(node n3, node n3, y11), (node n3, node n4, -y11), (node n3, node n1, y12), (node n3, node n2, -y12),
+                (node n4, node n3, -y11), (node n4, node n4, y11), (node n4, node n1, -y12), (node n4, node n2, y12),
+                (node n1, node n3, y21), (node n1, node n4, -y21), (node n1, node n1, y22), (node n1, node n2, -y22),
+                (node n2, node n3, -y21), (node n2, node n4, y21), (node n2, node n1, -y22), (node n2, node n2, y22)] }
+  | .HY n1 n2 m n3 n4 mc y isc h =>
+      -- CCVS._stamp with a controlling component that has no branch current of its own
+      { lhs := branchPattern n1 n2 m ++ [(br m, br mc, -h), (br mc, br mc, 1), (br mc, node n3, -y), (br mc, node n4, y)],
+        rhs := [(br mc, -isc)] }
+  | .SP n1 n2 n3 n4 m c1 c2 c4 =>
+      { lhs := [(node n3, br m, 1), (br m, node n3, 1), (br m, node n1, -c1), (br m, node n2, -c2), (br m, node n4, -c4)] }
 
 def stampAll (kind : Kind) (s : K) (cs : List (Cpt K)) : Stamp K :=
   cs.foldr (fun c acc => (stamp kind s c).append acc) {}
@@ -117,6 +136,9 @@ def owned : Cpt K → List Nat
   | .GY _ _ _ _ m1 m2 _ => [m1, m2]
   | .AM _ _ m => [m]
   | .TR _ _ m _ => [m]
+  | .TPA _ _ _ _ m _ _ _ _ => [m]
+  | .SP _ _ _ _ m _ _ _ => [m]
+  | .HY _ _ m _ _ mc _ _ _ => [m, mc]
   | _ => []
 
 /-- entry (r, c) of the assembled matrix, and entry r of the right-hand side (diagnostics) -/
